@@ -41,7 +41,7 @@ def entries(e: Engine):
     return out
 
 
-def is_primitive(e: Engine, n: Node):
+def is_primitive(e: Engine, n: Node, sends=False):
     """(kind, reason) if the call node is a blocking receive-side primitive
     that no repo function implements (i.e. it leaves the analysed code)."""
     if n.kind != 'call' or n.extra.get('partial'):
@@ -53,6 +53,9 @@ def is_primitive(e: Engine, n: Node):
     if name in tables.BLOCKING_PRIMITIVES and \
             isinstance(n.ast.func, ast.Attribute):
         return name, tables.BLOCKING_PRIMITIVES[name]
+    if sends and name in tables.BLOCKING_SEND_PRIMITIVES and \
+            isinstance(n.ast.func, ast.Attribute):
+        return name, tables.BLOCKING_SEND_PRIMITIVES[name]
     key = (n.frame.ctx.func.module.name, name)
     if key in tables.BLOCKING_PRIMITIVES_IN and \
             isinstance(n.ast.func, ast.Attribute):
@@ -89,7 +92,8 @@ def run(e: Engine, rep: Report):
     rep.tables.add('tables.BLOCKING_PRIMITIVES')
     rep.tables.add('c14.FALLBACKS')
     rep.not_decided += ['wall-clock values of the configured timeouts',
-                        'send-side stalls (kernel send buffers)',
+                        'send-side stalls on the server side (kernel send '
+                        'buffers)',
                         'DNS resolver and idle poll() waits (bounded '
                         'elsewhere, exempt by table)']
     inline = e.inline_all(deny=DENY)
@@ -123,7 +127,7 @@ def run(e: Engine, rep: Report):
         for n in g.nodes:
             if n.id not in reach:
                 continue
-            prim = is_primitive(e, n)
+            prim = is_primitive(e, n, sends=(label == 'relay attempt'))
             if not prim:
                 continue
             nprim += 1
@@ -201,6 +205,18 @@ def run(e: Engine, rep: Report):
              'connect that timed out would end in AssertionError, and the '
              'attempt would wait for ever)')
     t7(e, rep)
+    rep.rule('T8', 'the blocking primitives of the relay modules are '
+             'gevent\'s: no connection / sleep / subprocess call goes to '
+             'the standard-library module of the same name (table '
+             'STDLIB_BLOCKERS) - a call that blocks the whole process cannot '
+             'be interrupted by any gevent.Timeout around it')
+    rep.tables.add('c14.STDLIB_BLOCKERS')
+    t8(e, rep)
+    rep.rule('T9', 'a timeout bounds the step it is armed for: in the relay '
+             'modules no `while` loop re-arms a Timeout scope round after '
+             'round for the same request (the only unbounded loops around '
+             'timed steps are the ones that take a NEW request with poll())')
+    t9(e, rep)
 
 
 def t4(e: Engine, rep: Report):
@@ -577,3 +593,124 @@ def t7(e: Engine, rep: Report):
                       witness=dataflow.render_path(w, 14) if w else None)
     if n_cls < 3:
         rep.error('anchor vanished: pool clients (%d < 3)' % n_cls)
+
+
+# ---------------------------------------------------------------------- T8
+STDLIB_BLOCKERS = {
+    'socket': {'create_connection', 'socket', 'socketpair', 'getaddrinfo',
+               'gethostbyname', 'gethostbyaddr', 'create_server', 'fromfd'},
+    'ssl': {'wrap_socket', 'create_default_context', 'SSLContext'},
+    'time': {'sleep'},
+    'select': {'select', 'poll', 'epoll'},
+    'subprocess': {'Popen', 'run', 'call', 'check_call', 'check_output'},
+    'threading': {'Lock', 'RLock', 'Event', 'Condition', 'Semaphore'},
+    'queue': {'Queue'},
+}
+
+
+def t8(e: Engine, rep: Report):
+    n = 0
+    for mname, m in sorted(e.p.modules.items()):
+        if not mname.startswith('slimta.relay'):
+            continue
+        n += 1
+        # names bound to a standard-library module / function here
+        mods, funcs = {}, {}
+        for st in m.tree.body:
+            if isinstance(st, ast.Import):
+                for a in st.names:
+                    if a.name in STDLIB_BLOCKERS:
+                        mods[a.asname or a.name] = a.name
+            elif isinstance(st, ast.ImportFrom) and st.level == 0 and \
+                    st.module in STDLIB_BLOCKERS:
+                for a in st.names:
+                    if a.name in STDLIB_BLOCKERS[st.module]:
+                        funcs[a.asname or a.name] = '%s.%s' % (st.module,
+                                                               a.name)
+        if not mods and not funcs:
+            continue
+        for x in ast.walk(m.tree):
+            if not isinstance(x, ast.Call):
+                continue
+            f = x.func
+            hit = None
+            if isinstance(f, ast.Attribute) and \
+                    isinstance(f.value, ast.Name) and f.value.id in mods \
+                    and f.attr in STDLIB_BLOCKERS[mods[f.value.id]]:
+                hit = '%s.%s' % (mods[f.value.id], f.attr)
+            elif isinstance(f, ast.Name) and f.id in funcs:
+                hit = funcs[f.id]
+            if hit:
+                rep.evaluations += 1
+                rep.bad('T8', mname, '`%s`' % ' '.join(
+                    ast.unparse(x).split())[:50],
+                    'the relay calls the standard-library %s: in a process '
+                    'that is not monkey-patched it blocks the gevent hub, '
+                    'so no Timeout scope around the delivery can fire - a '
+                    'destination that stalls holds the attempt (and the '
+                    'whole process) for as long as it likes' % hit,
+                    loc='%s:%d' % (m.relpath, x.lineno))
+    rep.evaluations += 1
+    if n < 5:
+        rep.error('anchor vanished: relay modules (%d < 5)' % n)
+    else:
+        rep.ok('T8', 'slimta.relay', 'blocking primitives come from gevent',
+               reason='%d modules scanned' % n, nontrivial=False)
+
+
+# ---------------------------------------------------------------------- T9
+def t9(e: Engine, rep: Report):
+    n = 0
+
+    def is_timeout_with(w, f):
+        for it in w.items:
+            ce = it.context_expr
+            if isinstance(ce, ast.Call) and ast.unparse(ce.func).rpartition(
+                    '.')[2] == 'Timeout':
+                return True
+        return False
+
+    def features(nodes, f, depth=0, seen=()):
+        """(arms a timeout, takes a new request) for the statements given
+        and the methods of the same object they call"""
+        tmo = poll = False
+        for st in nodes:
+            for x in ast.walk(st):
+                if isinstance(x, ast.With) and is_timeout_with(x, f):
+                    tmo = True
+                if isinstance(x, ast.Call) and \
+                        isinstance(x.func, ast.Attribute):
+                    if x.func.attr in ('poll', 'popleft', 'pop'):
+                        poll = True
+                    if isinstance(x.func.value, ast.Name) and \
+                            x.func.value.id == 'self' and f.cls is not None \
+                            and depth < 3 and x.func.attr not in seen:
+                        m = e.p.lookup_method(f.cls.qname, x.func.attr)
+                        if m is not None:
+                            t2, p2 = features(m.node.body, m, depth + 1,
+                                              seen + (x.func.attr,))
+                            tmo, poll = tmo or t2, poll or p2
+        return tmo, poll
+    for f in e.p.functions.values():
+        if not f.module.name.startswith('slimta.relay'):
+            continue
+        for w in walk_own(f.node):
+            if not isinstance(w, ast.While):
+                continue
+            n += 1
+            rep.evaluations += 1
+            rep.functions.add(f.qname)
+            tmo, poll = features(w.body, f)
+            rep.check(not tmo or poll, 'T9', f.qname,
+                      '`while %s` does not re-arm a timeout for the same '
+                      'request' % ' '.join(ast.unparse(w.test).split())[:30],
+                      'every trip round `while %s` arms a fresh Timeout for '
+                      'the same request: a peer that fails the same way '
+                      'every time keeps the attempt going for ever, the '
+                      'configured timeout never adds up'
+                      % ' '.join(ast.unparse(w.test).split())[:30],
+                      loc=f.loc(w), reason='no timed step inside' if not tmo
+                      else 'takes a new request each round')
+    if n < 2:
+        rep.error('anchor vanished: while loops of the relay modules '
+                  '(%d < 2)' % n)
